@@ -60,6 +60,13 @@ fn pattern_tags(p: &str) -> Vec<String> {
     if p.contains("@(") || p.contains("+(") || p.contains("?(") || p.contains("*(") || p.contains("!(") {
         add("pat:extglob-group")
     }
+    // degenerate extglob groups: an alternative that is the empty string, or a bare `(` inside a group
+    if p.contains("()") || p.contains("(|") || p.contains("|)") || p.contains("||") {
+        add("pat:empty-alternative")
+    }
+    if p.contains("((") {
+        add("pat:paren-inside-group")
+    }
     if p.contains('\n') {
         add("pat:newline")
     }
